@@ -58,6 +58,9 @@ type Branch struct {
 	// Force, when non-nil, replaces the hash decision (used to enumerate outcome vectors);
 	// an entry "-" stands for the empty selection.
 	Force []string `json:"force,omitempty"`
+	// Prefix (stream conditions with Force only): the condition reads one chunk, closes its
+	// stream and returns the forced decision.
+	Prefix bool `json:"prefix,omitempty"`
 }
 
 // Spec is a whole graph.
